@@ -1,17 +1,141 @@
 package main
 
 import (
+	"flag"
 	"fmt"
-	"golang.org/x/tools/go/packages"
-	"golang.org/x/tools/go/ssa"
-	"golang.org/x/tools/go/ssa/ssautil"
+	"os"
+	"sort"
+	"strings"
+	"time"
 )
 
 func main() {
-	cfg := &packages.Config{Mode: packages.LoadAllSyntax, Dir: "/repo"}
-	pkgs, err := packages.Load(cfg, "./utils/stringset")
-	fmt.Println(len(pkgs), err)
-	prog, spkgs := ssautil.AllPackages(pkgs, ssa.GlobalDebug)
-	prog.Build()
-	fmt.Println(spkgs[0].Func("FromSlice") != nil)
+	if len(os.Args) < 2 {
+		fmt.Fprintln(os.Stderr, "usage: govc check|verify ...")
+		os.Exit(2)
+	}
+	switch os.Args[1] {
+	case "verify":
+		cmdVerify(os.Args[2:])
+	case "check":
+		cmdCheck(os.Args[2:])
+	default:
+		fmt.Fprintln(os.Stderr, "unknown command", os.Args[1])
+		os.Exit(2)
+	}
 }
+
+// cmdVerify: development driver — verify the named functions and print every obligation.
+func cmdVerify(args []string) {
+	fs := flag.NewFlagSet("verify", flag.ExitOnError)
+	repo := fs.String("repo", "/repo", "repository root")
+	externs := fs.String("externs", "/verif/contracts/externs", "extern spec directory")
+	pkgsFlag := fs.String("pkgs", "", "comma separated package patterns")
+	fnsFlag := fs.String("fns", "", "comma separated contract keys (default: all contracts in the packages)")
+	scratch := fs.String("scratch", "", "scratch directory")
+	modfile := fs.String("modfile", "", "alternate go.mod")
+	timeout := fs.Int("timeout", 10, "per query timeout (s)")
+	verbose := fs.Bool("v", false, "verbose")
+	dump := fs.String("dump", "", "obligation name substring whose SMT query is printed")
+	fs.Parse(args)
+	t0 := time.Now()
+	eng, err := loadEngine(*repo, strings.Split(*pkgsFlag, ","), *externs, *modfile)
+	if err != nil {
+		fmt.Fprintln(os.Stderr, "load:", err)
+		os.Exit(2)
+	}
+	fmt.Printf("loaded in %.1fs, %d contracts\n", time.Since(t0).Seconds(), len(eng.cs.Funcs))
+	var keys []string
+	if *fnsFlag != "" {
+		keys = strings.Split(*fnsFlag, ",")
+	} else {
+		for k, fc := range eng.cs.Funcs {
+			if !fc.Extern && !fc.Trusted {
+				keys = append(keys, k)
+			}
+		}
+	}
+	sort.Strings(keys)
+	if *scratch == "" {
+		d, _ := os.MkdirTemp("", "govc")
+		*scratch = d
+		defer os.RemoveAll(d)
+	}
+	cfg := &SolverCfg{quickTimeout: time.Duration(*timeout) * time.Second, scratch: *scratch, parallel: 16}
+	var all []*Oblig
+	var ctxs []*FnCtx
+	for _, k := range keys {
+		fc := eng.cs.Funcs[k]
+		if fc == nil {
+			fmt.Println("NO CONTRACT", k)
+			continue
+		}
+		fn := eng.findFunction(fc)
+		if fn == nil {
+			fmt.Println("NO FUNCTION", k)
+			continue
+		}
+		c := newFnCtx(eng, fn, fc, k)
+		c.verify()
+		ctxs = append(ctxs, c)
+		for _, e := range c.errs {
+			fmt.Println("ERROR", k, e)
+		}
+		all = append(all, c.obligs...)
+		all = append(all, c.covers...)
+	}
+	dischargeAll(all, cfg)
+	bad := 0
+	for _, o := range all {
+		ok := o.Status == "unsat"
+		if o.Kind == "cover" {
+			ok = o.Status == "sat"
+		}
+		if !ok {
+			bad++
+		}
+		if *verbose || !ok {
+			fmt.Printf("%-7s %-6s %5dms %s  [%s:%d] %s\n", o.Status, o.Solver, o.Millis, o.Name, shortFile(o.Pos.Filename), o.Pos.Line, o.Text)
+			if !ok && o.Kind != "cover" && o.Status == "sat" {
+				fmt.Println("   model:", modelLine(o))
+			}
+		}
+		if *dump != "" && strings.Contains(o.Name, *dump) {
+			fmt.Println(o.query(true))
+		}
+	}
+	for _, c := range ctxs {
+		var ns []string
+		for n := range c.notes {
+			ns = append(ns, n)
+		}
+		for n := range c.abstracted {
+			ns = append(ns, "abstracted call: "+n)
+		}
+		sort.Strings(ns)
+		if *verbose {
+			for _, n := range ns {
+				fmt.Println("NOTE", c.key, n)
+			}
+		}
+	}
+	fmt.Printf("%d obligations, %d not ok, %.1fs\n", len(all), bad, time.Since(t0).Seconds())
+	if bad > 0 {
+		os.Exit(1)
+	}
+}
+
+func shortFile(f string) string {
+	return strings.TrimPrefix(f, "/repo/")
+}
+
+func modelLine(o *Oblig) string {
+	lines := strings.Split(o.Model, "\n")
+	if len(lines) > 1 {
+		vals := strings.Join(lines[1:], " ")
+		vals = strings.Join(strings.Fields(vals), " ")
+		return truncate(vals, 600)
+	}
+	return ""
+}
+
